@@ -610,7 +610,7 @@ def case_term(run):
             value = flat_value(e['result'][1]) if completed else []
             if completed:
                 sums[(i, author)] = (acc, value, scale)
-            esums.append('E %s %d [%s] %s %s %s' % (core.boollit(author), i, ';'.join(zl(n) for n in idx),
+            esums.append('E %s %d [%s]%%Z %s %s %s' % (core.boollit(author), i, ';'.join(zl(n) for n in idx),
                                                     core.boollit(completed), qlist(value), q(Fraction(float(scale)))))
         # guard band for the verdict
         skip = False
@@ -642,7 +642,7 @@ def case_term(run):
         info['boundary'] = skip
         inputs = as_inputs(spec['inputs'])
         cfg_term = ('(mkConfig [%s] [%s] [%s] %s %s %s %d %d %s [%s])' % (
-            ';'.join('None' if p is None else '(Some %s)' % zl(p) for p in positions),
+            ';'.join('None' if p is None else '(Some %s%%Z)' % zl(p) for p in positions),
             ';'.join(nm.s(a) for a in cfg['answers']),
             ';'.join(nm.s(v) for v in cfg.get('instructor_vars', [])),
             num_pyv(cfg.get('even_odd', 0)), num_pyv(cfg.get('infty_val', 1e3)), num_pyv(cfg.get('infty_val_fact', 80)),
@@ -655,3 +655,710 @@ def case_term(run):
         info['unencodable'] = str(e)
         return None, info
     return '(%s\n   %s)' % (nm.lets(), body), info
+
+
+# ================================================================================================
+# case generation (everything derives from the seed)
+# ================================================================================================
+VAR_NAMES = ['n', 'k', 'm', 't', 'idx', 'n1', 'k_2', "n'", 'q', 'r_']
+TOLS = [None, None, 0, 1e-6, 0.01, 0.5, '0.01%', '1%', '10%']
+CUTS = [20, 30, 40, 51]
+
+
+def lim_value(l, cut):
+    """('int', v) | ('inf', s) -> integer after replacing infinity by the cutoff"""
+    return l[1] if l[0] == 'int' else l[1] * cut
+
+
+def ref_indices(lo, hi, eo, cut):
+    """the property's index set: all integers between the limits (either order), filtered by parity"""
+    a, b = lim_value(lo, cut), lim_value(hi, cut)
+    a, b = min(a, b), max(a, b)
+    return [k for k in range(a, b + 1) if eo == 0 or (eo == 1 and k % 2 == 1) or (eo == 2 and k % 2 == 0)]
+
+
+def render_limit(rng, l, variables):
+    if l[0] == 'inf':
+        return 'infty' if l[1] > 0 else '-infty'
+    v = l[1]
+    r = rng.random()
+    if r < 0.6:
+        return '%d' % v
+    if r < 0.7:
+        return '%d.0' % v
+    if r < 0.8:
+        return '%d+2' % (v - 2)
+    if r < 0.9 and variables:
+        return '%d+%s-%s' % (v, variables[0], variables[0])
+    return '(%d)*1' % v
+
+
+def pick_env(rng, exact):
+    r = rng.random()
+    variables = [] if r < 0.35 else (['x'] if r < 0.8 else ['x', 'y'])
+    cfg = {}
+    if variables:
+        cfg['variables'] = list(variables)
+        if exact:
+            cfg['sample_from'] = {v: ('discrete', [2, 3, 5, -1, 4]) for v in variables}
+        elif rng.random() < 0.5:
+            cfg['sample_from'] = {v: ('real', 1, 3) for v in variables}
+    return variables, cfg
+
+
+def pick_positions(rng, full_prob=0.6):
+    """a subset of the four fields in a random order: list of 4 (1-based position or None)"""
+    if rng.random() < full_prob:
+        return None
+    entered = [f for f in range(4) if rng.random() < 0.6]
+    order = list(entered)
+    rng.shuffle(order)
+    pos = [None] * 4
+    for p, f in enumerate(order):
+        pos[f] = p + 1
+    return pos
+
+
+def inputs_from(pos, fields):
+    """fields: the four strings the student would type; pos: positions -> the input list"""
+    if pos is None:
+        return list(fields)
+    n = sum(1 for p in pos if p is not None)
+    out = [None] * n
+    for f, p in enumerate(pos):
+        if p is not None:
+            out[p - 1] = fields[f]
+    return out
+
+
+def transform(rng, author, entered, eo, variables, infinite):
+    """author = (lo, hi, tree, var) -> student's (lo, hi, tree, var), label.  Only entered fields may differ."""
+    lo, hi, tree, var = author
+    e_lo, e_hi, e_sum, e_var = entered
+    label = []
+    if e_var and e_sum and rng.random() < 0.6:
+        var = rng.choice([v for v in VAR_NAMES if v not in variables])
+        label.append('rename')
+    ops = []
+    if e_lo and e_hi:
+        ops.append('swap')
+    if e_lo and e_hi and e_sum:
+        ops += ['shift', 'shift', 'reverse']
+    if e_sum:
+        ops += ['rewrite', 'perturb-summand', 'scale']
+    if e_lo or e_hi:
+        ops.append('perturb-limit')
+    ops.append('same')
+    for _ in range(rng.choice([1, 1, 2])):
+        op = rng.choice(ops)
+        label.append(op)
+        if op == 'swap':
+            lo, hi = hi, lo
+        elif op == 'shift':
+            s = rng.choice([-3, -2, -1, 1, 2, 3, 4]) if eo == 0 or rng.random() < 0.3 else rng.choice([-4, -2, 2, 4])
+            sh = lambda l: ('int', l[1] + s) if l[0] == 'int' else l
+            lo, hi = sh(lo), sh(hi)
+            tree = sx.subst(tree, ('sub', ('n',), ('c', Fraction(s))))
+        elif op == 'reverse':
+            rv = lambda l: ('int', -l[1]) if l[0] == 'int' else ('inf', -l[1])
+            lo, hi = rv(hi), rv(lo)
+            tree = sx.subst(tree, ('neg', ('n',)))
+        elif op == 'rewrite':
+            r = rng.random()
+            if r < 0.4:
+                tree = ('add', tree, ('sub', ('n',), ('n',)))
+            elif r < 0.7:
+                tree = ('divc', ('mul', ('c', Fraction(2)), tree), Fraction(2))
+            else:
+                tree = ('sub', ('mul', ('c', Fraction(2)), tree), tree)
+        elif op == 'perturb-summand':
+            tree = ('add', tree, ('c', Fraction(rng.choice([1, -1, 2, 1]), rng.choice([1, 2, 4]))))
+        elif op == 'scale':
+            tree = ('mul', ('c', rng.choice([Fraction(11, 10), Fraction(21, 20), Fraction(9, 10), Fraction(101, 100),
+                                              Fraction(1001, 1000), Fraction(3, 2), Fraction(221, 200)])), tree)
+        elif op == 'perturb-limit':
+            which = rng.choice([w for w, e in (('lo', e_lo), ('hi', e_hi)) if e])
+            d = rng.choice([-2, -1, 1, 2])
+            if which == 'lo' and lo[0] == 'int':
+                lo = ('int', lo[1] + d)
+            elif which == 'hi' and hi[0] == 'int':
+                hi = ('int', hi[1] + d)
+    return (lo, hi, tree, var), '+'.join(label)
+
+
+def value_case(rng, key, a, b, eo, tier, infinite=None):
+    exact = rng.random() < 0.55 and infinite is None
+    variables, cfg = pick_env(rng, exact)
+    kind = rng.choice(['real', 'real', 'complex', 'vector'])
+    avar = rng.choice(VAR_NAMES[:6])
+    cut = 1000
+    if infinite is None:
+        lo, hi = ('int', a), ('int', b)
+        tree = sx.gen_summand(rng, kind, variables, exact)
+    else:
+        direction, fin = infinite
+        cut = rng.choice(CUTS)
+        if direction == 0:
+            lo, hi = ('inf', -1), ('inf', 1)
+            # decays geometrically in both directions
+            tree = ('pow', ('c', Fraction(1, 2)), ('mul', ('n',), ('n',)))
+            if variables and rng.random() < 0.5:
+                tree = ('mul', ('var', variables[0]), tree)
+        elif direction > 0:
+            lo, hi = ('int', fin), ('inf', 1)
+            tree = sx.gen_geometric(rng, variables, 1)
+        else:
+            lo, hi = ('inf', -1), ('int', fin)
+            tree = sx.gen_geometric(rng, variables, -1)
+        if rng.random() < 0.5:
+            lo, hi = hi, lo
+        cfg['infty_val'] = cut if rng.random() < 0.7 else float(cut)
+        if rng.random() < 0.35:
+            # a user-supplied factorial (scipy is absent): the cutoff switches to infty_val_fact for whoever uses it
+            cfg['user_fact'] = True
+            cfg['infty_val_fact'] = rng.choice([12, 16, 25])
+            if rng.random() < 0.5:
+                tree = ('mul', ('fact0',), tree)
+    pos = pick_positions(rng)
+    entered = [True] * 4 if pos is None else [p is not None for p in pos]
+    author = (lo, hi, tree, avar)
+    student, label = transform(rng, author, entered, eo, variables, infinite is not None)
+    if cfg.get('user_fact') and entered[2] and rng.random() < 0.5:
+        student = (student[0], student[1], ('mul', student[2], ('fact0',)), student[3])
+        label += '+fact'
+    tol = rng.choice(TOLS)
+    if infinite is not None and tol in (None, 0):
+        tol = rng.choice([1e-6, '0.01%', '1%'])
+    cfg['answers'] = [render_limit(rng, lo, variables), render_limit(rng, hi, variables), sx.render(tree, avar), avar]
+    if pos is not None:
+        cfg['positions'] = pos
+    if eo or rng.random() < 0.3:
+        cfg['even_odd'] = eo
+    if tol is not None:
+        cfg['tolerance'] = tol
+    cfg['samples'] = rng.choice([1, 1, 1, 2, 2, 3])
+    fields = [render_limit(rng, student[0], variables), render_limit(rng, student[1], variables),
+              sx.render(student[2], student[3]), student[3]]
+    meta = {'author': author, 'student': student, 'eo': eo, 'cut': cut, 'cut_fact': cfg.get('infty_val_fact', 80), 'tol': 1e-12 if tol is None else tol,
+            'exact': exact, 'label': label, 'variables': variables}
+    return {'key': key, 'kind': 'value', 'cfg': cfg, 'inputs': inputs_from(pos, fields), 'meta': meta}
+
+
+BASE_ANSWERS = ['1', '4', 'n^2+x', 'n']
+
+
+def student_error_cases(rng, count):
+    """student submissions the property says must raise a student-facing error"""
+    out = []
+    probes = []
+    for bad in ['1/2', '2.5', '7/3', '-0.5', 'pi', 'x/7+0.01']:
+        probes += [('noninteger-limit', 0, bad), ('noninteger-limit', 1, bad)]
+    for bad in ['i', '1+i', '2*j', '3-2*i', 'sqrt(-4)']:
+        probes += [('complex-limit', 0, bad), ('complex-limit', 1, bad)]
+    for bad in ['x', 'pi', 'e', 'i', 'j', 'infty', 'sin', 'cos', 'exp', 'sqrt', 'fact', 'c']:
+        probes.append(('dummy-has-meaning', 3, bad))
+    for f in range(4):
+        probes.append(('blank-field', f, ''))
+    for f in range(3):
+        probes.append(('instructor-var', f, None))
+    probes += [('same-infinities', None, 'infty'), ('same-infinities', None, '-infty')]
+    for j in range(count):
+        what, field, bad = probes[j % len(probes)]
+        eo = rng.choice([0, 0, 1, 2])
+        lo, hi = rng.randint(-6, 3), rng.randint(4, 9)
+        cfg = {'answers': ['%d' % lo, '%d' % hi, 'n^2+x+c*0', 'n'], 'variables': ['x', 'c'], 'instructor_vars': ['c'],
+               'samples': rng.choice([1, 2])}
+        if eo:
+            cfg['even_odd'] = eo
+        var = rng.choice(['n', 'k', 't'])
+        fields = ['%d' % lo, '%d' % hi, '%s^2+x' % var, var]
+        pos = pick_positions(rng, 0.5)
+        if what == 'same-infinities':
+            fields[0] = fields[1] = bad
+            need = [0, 1]
+        elif what == 'instructor-var':
+            fields[field] = {0: '%d+c-c' % lo, 1: '%d+0*c' % hi, 2: '%s^2+x+c-c' % var}[field]
+            need = [field] + ([3] if field == 2 else [])
+        elif what == 'dummy-has-meaning':
+            fields[3] = bad
+            fields[2] = '%s^2' % bad if bad not in ('sin', 'cos', 'exp', 'sqrt', 'fact') else '2'
+            need = [2, 3]
+        else:
+            fields[field] = bad
+            need = [field]
+        if var != 'n' and 3 not in need:
+            need = need + [2, 3]
+        if pos is not None:
+            for f in need:
+                if pos[f] is None:
+                    pos[f] = max([p for p in pos if p is not None] + [0]) + 1
+            if var != 'n' and (pos[2] is None or pos[3] is None):
+                pos = None
+        out.append({'key': 'serr:%d:%s:%s:%r' % (j, what, field, bad), 'kind': 'student-error', 'cfg': dict(cfg, **({'positions': pos} if pos else {})),
+                    'inputs': inputs_from(pos, fields),
+                    'meta': {'what': what, 'field': field, 'bad': bad, 'fields': fields, 'lo': lo, 'hi': hi, 'eo': eo}})
+    return out
+
+
+def author_error_cases(rng, count):
+    """failures in the author's own sum, with a valid student submission"""
+    probes = [('noninteger-limit', 0, '1/2'), ('noninteger-limit', 1, '2.5'), ('complex-limit', 0, '1+i'), ('complex-limit', 1, 'i'),
+              ('same-infinities', None, 'infty'), ('same-infinities', None, '-infty'),
+              ('dummy-in-scope', 3, 'x'), ('dummy-in-scope', 3, 'i'), ('dummy-in-scope', 3, 'pi'),
+              ('dummy-reserved', 3, 'sin'), ('dummy-reserved', 3, 'e'), ('dummy-invalid-name', 3, '_n'), ('dummy-invalid-name', 3, 'n m'),
+              ('undefined-variable', 2, 'n+zz'), ('division-by-zero', 2, '1/(n-n)'), ('shape', 2, '[n,1]+[1,2,3]'),
+              ('blank-field', 0, ''), ('blank-field', 1, ''), ('blank-field', 2, ''), ('blank-field', 3, ''),
+              ('whitespace-limit', 0, ' '), ('whitespace-limit', 1, '  '), ('array-limit', 0, '[1,2]'),
+              ('unparsable', 0, '1+'), ('unparsable', 2, 'n+*2'), ('unparsable', 1, '(3')]
+    out = []
+    for j in range(count):
+        what, field, bad = probes[j % len(probes)]
+        answers = ['1', '4', 'n^2+x', 'n']
+        if what == 'same-infinities':
+            answers[0] = answers[1] = bad
+        elif what.startswith('dummy'):
+            answers[3] = bad
+            answers[2] = '2+x'
+        else:
+            answers[field] = bad
+        # which fields the student enters: all, or a subset (the failing author field entered or not)
+        pos = pick_positions(rng, 0.4)
+        var = rng.choice(['n', 'k'])
+        if what.startswith('dummy'):
+            fields = ['1', '4', '2+x', var]
+        else:
+            fields = ['1', '4', '%s^2+x' % var, var]
+        if pos is not None and var != 'n' and (pos[2] is None or pos[3] is None) and not what.startswith('dummy'):
+            var = 'n'
+            fields = ['1', '4', 'n^2+x', 'n']
+        cfg = {'answers': answers, 'variables': ['x'], 'samples': rng.choice([1, 2])}
+        if pos is not None:
+            cfg['positions'] = pos
+        entered = [True] * 4 if pos is None else [p is not None for p in pos]
+        out.append({'key': 'aerr:%d:%s:%s:%r:%r' % (j, what, field, bad, pos), 'kind': 'author-error', 'cfg': cfg,
+                    'inputs': inputs_from(pos, fields),
+                    'meta': {'what': what, 'field': field, 'bad': bad, 'entered': entered, 'fields': fields}})
+    return out
+
+
+def position_cases(rng, tier):
+    out = []
+    answers = ['2', '6', 'n^2+1', 'n']
+    fields = ['6', '2', 'k^2+1', 'k']
+    # every subset of the four fields, in two orders each
+    for mask in range(16):
+        entered = [f for f in range(4) if mask >> f & 1]
+        for rep in range(2):
+            order = list(entered)
+            rng.shuffle(order)
+            pos = [None] * 4
+            for p, f in enumerate(order):
+                pos[f] = p + 1
+            fl = list(fields)
+            if not (pos[2] is not None and pos[3] is not None):
+                fl[2], fl[3] = 'n^2+1', 'n'
+            inputs = inputs_from(pos, fl)
+            for delta in (0, 1, -1):
+                if delta == 1:
+                    inp = inputs + ['1']
+                elif delta == -1:
+                    if not inputs:
+                        continue
+                    inp = inputs[:-1]
+                else:
+                    inp = inputs
+                out.append({'key': 'pos:%d:%d:%d' % (mask, rep, delta), 'kind': 'positions',
+                            'cfg': {'answers': answers, 'positions': pos, 'explicit_none': rep == 1},
+                            'inputs': inp, 'meta': {'valid': True, 'delta': delta}})
+    # invalid position maps
+    bad_maps = [[1, 1, 2, 3], [1, 2, 2, None], [2, 3, 4, 5], [None, 2, None, None], [1, 3, None, None], [1, 2, 4, None],
+                [3, 3, 3, 3], [None, None, 2, 2], [2, None, None, 3]]
+    for j, pos in enumerate(bad_maps):
+        out.append({'key': 'badpos:%d' % j, 'kind': 'positions', 'cfg': {'answers': answers, 'positions': pos},
+                    'inputs': ['1'] * sum(1 for p in pos if p is not None), 'meta': {'valid': False}})
+    return out
+
+
+# ================================================================================================
+# the property oracle (independent of the model: exact reference sums, index sets, error classes)
+# ================================================================================================
+def tree_uses_fact(t):
+    if t[0] == 'fact0':
+        return True
+    if t[0] == 'vec':
+        return any(tree_uses_fact(x) for x in t[1])
+    return any(tree_uses_fact(x) for x in t[1:] if isinstance(x, tuple))
+
+
+def ref_sum(who, meta, env):
+    lo, hi, tree, var = meta[who]
+    cut = meta['cut_fact'] if tree_uses_fact(tree) else meta['cut']
+    idx = ref_indices(lo, hi, meta['eo'], cut)
+    total, scale = sx.ZERO, 1.0
+    for k in idx:
+        v = sx.ev(tree, k, env)
+        total = sx.v_add(total, v)
+        scale += math.sqrt(float(sx.norm2(v)))
+    return total, scale, idx
+
+
+def site_of(run):
+    """where in the implementation an unexpected student-facing error for an author failure came from"""
+    ig, mh, ex, cex = lib()
+    st, r = run['outcome']
+    rec, spec = run['rec'], run['spec']
+    if st != 'exc':
+        return None, None
+    msg = str(r)
+    tp = run.get('true_positions', {})
+    not_entered = [f for f in FIELDS if tp.get(f) is None]
+    if isinstance(r, ex.MissingInput) and msg.startswith('Please enter a value for'):
+        m = re.match(r'Please enter a value for (\w+),', msg)
+        if m and m.group(1) in not_entered:
+            return 'SummationGraderBase.check', 'blank author field that the student does not enter'
+    if type(r) is ex.InvalidInput and ('as summation variable' in msg or 'is an invalid variable name' in msg):
+        if 'summation_variable' in not_entered:
+            return 'SummationGraderBase.check', "author's summation variable validated as if the student had typed it"
+    if isinstance(r, cex.CalcError) and not rec.esums:
+        bad = [p[0] for p in rec.parses if p[1] != 'ok']
+        if bad and bad[0] in spec['cfg']['answers'] and bad[0] not in as_inputs(spec['inputs']):
+            return 'MathMixin.gen_var_and_func_samples', "author's expression does not parse"
+    if type(r) is ex.StudentFacingError and msg.startswith('Invalid Input: Could not check input'):
+        for e in rec.esums:
+            if e['k'] % 2 == 0 and e['result'][0] == 'exc' and not isinstance(e['result'][1], ex.MITxError):
+                return 'SumGrader.evaluate_sum', "author's limit is blank, nan or an array (non-library exception)"
+    return None, None
+
+
+def oracle(run):
+    """-> list of witness dicts (empty when the property holds on this call)"""
+    ig, mh, ex, cex = lib()
+    spec, rec = run['spec'], run['rec']
+    st, r = run['outcome']
+    meta, kind = spec.get('meta', {}), spec['kind']
+    fails = []
+
+    def fail(what, **extra):
+        w = {'key': spec['key'], 'kind': kind, 'what': what, 'cfg': spec['cfg'], 'inputs': spec['inputs'],
+             'meta_repr': repr(meta), 'observed': repr(r)[:300]}
+        w.update(extra)
+        fails.append(w)
+
+    if st == 'timeout':
+        fail('the call did not return within 10 s')
+        return fails
+    if st == 'exc' and not isinstance(r, ex.MITxError):
+        fail('an exception that is not a library error escaped: %r' % (r,))
+        return fails
+
+    if kind == 'value':
+        samples = spec['cfg'].get('samples', 2)
+        envs = {}
+        for e in rec.esums:
+            envs.setdefault(e['k'] // 2, e['values'])
+        if st == 'ret' and len(rec.esums) != 2 * samples:
+            fail('%d sums evaluated for %d samples' % (len(rec.esums), samples))
+            return fails
+        verdicts, boundary = [], False
+        try:
+            for i in range(samples):
+                if i not in envs:
+                    break
+                env = {k: v for k, v in envs[i].items() if isinstance(v, (int, float)) and not isinstance(v, bool)}
+                A, sa, idx_a = ref_sum('author', meta, env)
+                S, ss, idx_s = ref_sum('student', meta, env)
+                # every integer of the index set is evaluated exactly once, nothing else
+                for e in rec.esums:
+                    if e['k'] // 2 != i or e['result'][0] != 'ret':
+                        continue
+                    want = idx_a if e['k'] % 2 == 0 else idx_s
+                    got = sorted(x.get('n') for x in e['evals'] if not x['allow_inf'])
+                    if got != want:
+                        fail('%s sum of sample %d evaluated the summand at %s, the index set is %s' %
+                             ('author' if e['k'] % 2 == 0 else 'student', i, got[:30], want[:30]),
+                             site='SumGrader.perform_summation', trigger='index set')
+                        return fails
+                if (sx.is_vec(A) != sx.is_vec(S)) and A != sx.ZERO and S != sx.ZERO:
+                    boundary = True
+                    continue
+                D = sx.v_add(A, sx.v_neg(S))
+                d2, a2 = sx.norm2(D), sx.norm2(A)
+                tol = meta['tol']
+                T2 = (Fraction(tol[:-1]) / 100) ** 2 * a2 if isinstance(tol, str) else Fraction(tol) ** 2
+                d, T = math.sqrt(d2), math.sqrt(T2)
+                slack = 1e-9 * (sa + ss) + 1e-9 * T
+                if d2 == 0:
+                    if meta['exact'] or T > slack:
+                        verdicts.append(True)
+                    else:
+                        boundary = True
+                elif abs(d - T) <= slack:
+                    boundary = True
+                else:
+                    verdicts.append(d < T)
+        except sx.RefError as e:
+            run['ref_error'] = str(e)
+            return fails
+        run['oracle_boundary'] = boundary
+        if st == 'exc':
+            if not boundary and verdicts and all(verdicts) and len(verdicts) == samples:
+                fail('a sum equal to the author\'s was not graded: %r' % (r,))
+            elif not is_student_facing(r):
+                fail('a well-formed submission produced a configuration error: %r' % (r,))
+            return fails
+        ok = r.get('ok')
+        if any(v is False for v in verdicts):
+            if ok is True:
+                fail('graded correct although the reference sums differ beyond the tolerance at some sample (%s)' % meta['label'])
+        elif not boundary and len(verdicts) == samples:
+            if ok is not True:
+                fail('graded %r although the reference sums agree within the tolerance at every sample (%s)' % (ok, meta['label']))
+        run['nontrivial'] = (spec['key'], bool(ok))
+        return fails
+
+    if kind == 'student-error':
+        if not (st == 'exc' and is_student_facing(r)):
+            site, trig = None, None
+            if meta['what'] == 'instructor-var' and meta['field'] == 2 and not ref_indices(('int', meta['lo']), ('int', meta['hi']), meta['eo'], 0):
+                site, trig = 'SumGrader.evaluate_sum', 'summand never evaluated when the index set is empty'
+            if meta['what'] == 'dummy-has-meaning' and meta['bad'] in spec['cfg'].get('instructor_vars', []):
+                site, trig = 'SumGrader.gen_evaluations', 'instructor variable removed from the scope before the dummy-variable check'
+            fail('%s (%r) did not raise a student-facing error: %s' % (meta['what'], meta['bad'], repr(r)[:200]), site=site, trigger=trig)
+        return fails
+
+    if kind == 'author-error':
+        maybe_fine = meta['what'] in ('dummy-reserved', 'dummy-invalid-name')
+        if st == 'exc' and isinstance(r, ex.ConfigError):
+            return fails
+        if st == 'ret' and maybe_fine:
+            return fails
+        site, trig = site_of(run)
+        fail("failure in the author's own sum (%s %r) reported as %s" % (meta['what'], meta['bad'], repr(r)[:200]), site=site, trigger=trig)
+        return fails
+
+    if kind == 'positions':
+        if not meta['valid']:
+            if not (run['stage'] == 'construct' and st == 'exc' and isinstance(r, ex.ConfigError)):
+                fail('invalid input_positions accepted: %r' % (r,))
+        elif meta['delta'] != 0:
+            if not (st == 'exc' and isinstance(r, ex.ConfigError)):
+                fail('wrong number of inputs did not raise ConfigError: %r' % (r,))
+        else:
+            if not (st == 'ret' and r.get('ok') is True):
+                fail('an equal sum entered through a subset of the input positions was not graded correct: %r' % (r,))
+        return fails
+    return fails
+
+
+# ================================================================================================
+# corpus: fixed cases that run first (regressions and the findings on the unchanged tree)
+# ================================================================================================
+def corpus():
+    c = []
+
+    def add(key, kind, cfg, inputs, meta):
+        c.append({'key': 'corpus:' + key, 'kind': kind, 'cfg': cfg, 'inputs': inputs, 'meta': meta})
+    base = ['1', '4', 'n^2+x', 'n']
+    # author failures that the implementation reports to the student
+    add('author-blank-lower-not-entered', 'author-error', {'answers': ['', '4', 'n^2+x', 'n'], 'variables': ['x'], 'positions': [None, None, 1, None]},
+        'n^2+x', {'what': 'blank-field', 'field': 0, 'bad': '', 'entered': [False, False, True, False]})
+    add('author-dummy-sin-not-entered', 'author-error', {'answers': ['1', '4', '2+x', 'sin'], 'variables': ['x'], 'positions': [None, None, 1, None]},
+        '2+x', {'what': 'dummy-reserved', 'field': 3, 'bad': 'sin', 'entered': [False, False, True, False]})
+    add('author-dummy-i-not-entered', 'author-error', {'answers': ['1', '4', '2+x', 'i'], 'variables': ['x'], 'positions': [1, 2, 3, None]},
+        ['1', '4', '2+x'], {'what': 'dummy-in-scope', 'field': 3, 'bad': 'i', 'entered': [True, True, True, False]})
+    add('author-dummy-i-entered', 'author-error', {'answers': ['1', '4', '2+x', 'i'], 'variables': ['x']},
+        ['1', '4', '2+x', 'k'], {'what': 'dummy-in-scope', 'field': 3, 'bad': 'i', 'entered': [True] * 4})
+    add('author-summand-unparsable', 'author-error', {'answers': ['1', '4', 'n+', 'n'], 'variables': ['x']},
+        ['1', '4', 'n', 'n'], {'what': 'unparsable', 'field': 2, 'bad': 'n+', 'entered': [True] * 4})
+    add('author-lower-whitespace', 'author-error', {'answers': [' ', '4', 'n', 'n']},
+        ['1', '4', 'n', 'n'], {'what': 'whitespace-limit', 'field': 0, 'bad': ' ', 'entered': [True] * 4})
+    add('author-lower-blank-entered', 'author-error', {'answers': ['', '4', 'n', 'n']},
+        ['1', '4', 'n', 'n'], {'what': 'blank-field', 'field': 0, 'bad': '', 'entered': [True] * 4})
+    add('author-lower-array', 'author-error', {'answers': ['[1,2]', '4', 'n', 'n']},
+        ['1', '4', 'n', 'n'], {'what': 'array-limit', 'field': 0, 'bad': '[1,2]', 'entered': [True] * 4})
+    add('author-division-by-zero', 'author-error', {'answers': ['0', '1', '1/t', 't']},
+        ['0', '1', 't', 't'], {'what': 'division-by-zero', 'field': 2, 'bad': '1/t', 'entered': [True] * 4})
+    # student errors
+    add('instructor-var-empty-range', 'student-error',
+        {'answers': ['2', '2', 'n', 'n'], 'even_odd': 1, 'variables': ['c'], 'instructor_vars': ['c']},
+        ['2', '2', 'c*n', 'n'], {'what': 'instructor-var', 'field': 2, 'bad': None, 'lo': 2, 'hi': 2, 'eo': 1})
+    add('instructor-var-nonempty-range', 'student-error',
+        {'answers': ['1', '3', 'c*n', 'n'], 'variables': ['c'], 'instructor_vars': ['c']},
+        ['1', '3', 'c*n', 'n'], {'what': 'instructor-var', 'field': 2, 'bad': None, 'lo': 1, 'hi': 3, 'eo': 0})
+    add('instructor-var-as-dummy', 'student-error',
+        {'answers': ['1', '3', 'n^2', 'n'], 'variables': ['c'], 'instructor_vars': ['c']},
+        ['1', '3', 'c^2', 'c'], {'what': 'dummy-has-meaning', 'field': 3, 'bad': 'c', 'lo': 1, 'hi': 3, 'eo': 0})
+    add('variable-as-dummy', 'student-error',
+        {'answers': ['0', '1', 't', 't'], 'variables': ['x']},
+        ['0', '1', 'x', 'x'], {'what': 'dummy-has-meaning', 'field': 3, 'bad': 'x', 'lo': 0, 'hi': 1, 'eo': 0})
+    # values
+    n = ('n',)
+    for j, (a, s, eo, ok) in enumerate([
+            ((('int', 1), ('int', 5), ('powc', n, 2), 'n'), (('int', 5), ('int', 1), ('powc', n, 2), 'k'), 0, True),
+            ((('int', 1), ('int', 5), ('powc', n, 2), 'n'), (('int', 2), ('int', 6), ('powc', ('sub', n, ('c', Fraction(1))), 2), 'k'), 0, True),
+            ((('int', 1), ('int', 5), n, 'n'), (('int', -5), ('int', -1), ('neg', n), 'm'), 1, True),
+            ((('int', 1), ('int', 5), n, 'n'), (('int', 1), ('int', 6), n, 'n'), 2, False),
+            ((('int', 2), ('int', 2), n, 'n'), (('int', 4), ('int', 4), n, 'n'), 1, True),
+            ((('int', -12), ('int', 12), ('vec', (n, ('c', Fraction(1)), ('powc', n, 2))), 'n'),
+             (('int', 12), ('int', -12), ('vec', (('c', Fraction(0)), ('c', Fraction(1)), ('powc', n, 2))), 't'), 0, True)]):
+        cfg = {'answers': ['%d' % a[0][1], '%d' % a[1][1], sx.render(a[2], a[3]), a[3]], 'samples': 1}
+        if eo:
+            cfg['even_odd'] = eo
+        add('value-%d' % j, 'value', cfg, ['%d' % s[0][1], '%d' % s[1][1], sx.render(s[2], s[3]), s[3]],
+            {'author': a, 'student': s, 'eo': eo, 'cut': 1000, 'cut_fact': 80, 'tol': 1e-12, 'exact': True, 'label': 'corpus', 'variables': []})
+    return c
+
+
+def generate(ctx):
+    rng = random.Random(7919 * ctx['seed'] + 19)
+    tier = ctx['tier']
+    specs = corpus()
+    # the property's grid: every limit pair in [-12, 12] in both orders x even_odd
+    grid = [(a, b, eo) for a in range(-12, 13) for b in range(-12, 13) for eo in (0, 1, 2)]
+    reps = 1 if tier == 'quick' else 3
+    for rep in range(reps):
+        for (a, b, eo) in grid:
+            specs.append(value_case(rng, 'grid:%d:%d:%d:%d' % (a, b, eo, rep), a, b, eo, tier))
+    n_inf = 150 if tier == 'quick' else 600
+    for j in range(n_inf):
+        direction = rng.choice([1, 1, -1, 0])
+        fin = rng.randint(-3, 5) if direction >= 0 else rng.randint(-5, 3)
+        specs.append(value_case(rng, 'inf:%d' % j, 0, 0, rng.choice([0, 0, 1, 2]), tier, infinite=(direction, fin)))
+    specs += student_error_cases(rng, 160 if tier == 'quick' else 600)
+    specs += author_error_cases(rng, 104 if tier == 'quick' else 416)
+    specs += position_cases(rng, tier)
+    return specs
+
+
+# ================================================================================================
+# driver API
+# ================================================================================================
+CODES = {1: 'final outcome differs', 2: 'evaluation points differ', 3: 'sum differs',
+         4: 'model fails where the implementation returned', 5: 'regenerated plan violates the index-set specification'}
+
+
+def run(ctx):
+    res = core.Result()
+    res.rule = ('one case per grader call SumGrader(cfg)(None, inputs); a case is non-trivial when it is a value case that '
+                'reached a verdict with at least one summand evaluation (distinct by limits, parity, summand text, inputs)')
+    specs = generate(ctx)
+    terms, metas = [], []
+    dist = {'value': 0, 'student-error': 0, 'author-error': 0, 'positions': 0, 'unencodable': 0, 'oracle_boundary': 0,
+            'ref_errors': 0, 'verdict_true': 0, 'verdict_false': 0, 'raised': 0, 'terms_evaluated': 0}
+    labels, errkinds = {}, {}
+    for spec in specs:
+        run_ = run_case(spec)
+        st, r = run_['outcome']
+        dist[spec['kind']] += 1
+        # --- property oracle on the implementation
+        res.oracle_evals += 1
+        for w in oracle(run_):
+            res.witnesses.append(w)
+        if run_.get('oracle_boundary'):
+            dist['oracle_boundary'] += 1
+            res.boundary += 1
+        if 'ref_error' in run_:
+            dist['ref_errors'] += 1
+        n_terms = sum(1 for e in run_['rec'].esums for x in e['evals'] if not x['allow_inf'])
+        dist['terms_evaluated'] += n_terms
+        if st == 'ret':
+            dist['verdict_true' if r.get('ok') is True else 'verdict_false'] += 1
+            if spec['kind'] == 'value' and n_terms:
+                res.nontrivial.add((spec['key'], tuple(spec['cfg']['answers']), tuple(as_inputs(spec['inputs']))))
+        else:
+            dist['raised'] += 1
+            t = err_tag(r) if st == 'exc' else 'timeout'
+            errkinds[t] = errkinds.get(t, 0) + 1
+        if spec['kind'] == 'value':
+            lab = spec['meta']['label']
+            labels[lab] = labels.get(lab, 0) + 1
+        # --- correspondence
+        term, info = case_term(run_)
+        if term is None:
+            dist['unencodable'] += 1
+            continue
+        if info['boundary']:
+            res.boundary += 1
+        terms.append(term)
+        metas.append(spec)
+        if len(res.samples) < 4 and spec['kind'] == 'value' and st == 'ret' and spec['key'].startswith('grid'):
+            res.samples.append({'answers': spec['cfg']['answers'], 'even_odd': spec['cfg'].get('even_odd', 0),
+                                'inputs': spec['inputs'], 'transformation': spec['meta']['label'], 'implementation': r,
+                                'model': 'same outcome, sums and evaluation points (checked in Coq)'})
+    dist['transformations'] = dict(sorted(labels.items(), key=lambda kv: -kv[1])[:12])
+    dist['error_classes'] = errkinds
+    res.distribution = dist
+    n, failing, errors = core.eval_agreement('c19', HEADER + AGREE_DEFS, 'case_ok', terms, shard=max(60, len(terms) // 16 + 1),
+                                             case_type='ccase')
+    res.programs = n
+    res.corr_errors += errors
+    if failing:
+        # second pass: which comparison failed
+        sub = [terms[i] for i in failing[:40]]
+        text = (HEADER + AGREE_DEFS + '\nDefinition verif_cases : list ccase :=\n  [ %s ].\n' % '\n  ; '.join(sub) +
+                'Eval vm_compute in (map case_code verif_cases).\n')
+        out = core.run_case_files([('c19_codes', text)])[0][2]
+        m = re.search(r'=\s*\[(.*?)\]\s*:\s*list nat', out, re.S)
+        codes = [int(x) for x in re.findall(r'\d+', m.group(1).replace('%nat', ''))] if m else []
+        for j, i in enumerate(failing):
+            spec = metas[i]
+            code = codes[j] if j < len(codes) else None
+            res.disagreements.append({'kind': spec['kind'], 'key': spec['key'], 'cfg': spec['cfg'], 'inputs': spec['inputs'],
+                                      'what': CODES.get(code, 'model and implementation differ')})
+    return res
+
+
+def replay(w):
+    try:
+        meta = eval(w.get('meta_repr', '{}'), {'Fraction': Fraction})
+    except Exception:
+        meta = {}
+    cfg = w['cfg']
+    if isinstance(cfg.get('positions'), list):
+        cfg = dict(cfg)
+    spec = {'key': w['key'], 'kind': w['kind'], 'cfg': cfg, 'inputs': w['inputs'], 'meta': meta}
+    run_ = run_case(spec)
+    fails = oracle(run_)
+    st, r = run_['outcome']
+    text = 'SumGrader(%r)(None, %r) -> %s %r' % (cfg, w['inputs'], st, r)
+    if fails:
+        return True, text + '\n' + fails[0]['what']
+    return False, text
+
+
+def classify_known(w, known):
+    """A witness belongs to a known finding when call site and triggering condition are the same."""
+    for e in known:
+        kw = e.get('witness', {})
+        if w.get('site') and w.get('site') == kw.get('site') and w.get('trigger') == kw.get('trigger'):
+            return e['id']
+    return None
+
+
+REFUTED = ['C19_author_failure_is_config_error_refuted', 'C19_instructor_var_rejected_refuted',
+           'C19_dummy_with_meaning_rejected_refuted']
+TRUSTED = [
+    'translator translate/summation.py (Python ast -> Gallina over Verif.Lib.SummationPy.pyv; templates for the statements it does not translate)',
+    'correspondence harness harness/props/c19.py: wraps calc.evaluator / calc.parse / is_valid_variable_name / SumGrader.evaluate_sum at '
+    'run time and replays the recorded oracle answers in the Coq model; floats enter Coq as exact dyadic rationals; sums compared within '
+    '1e-9 * (1 + sum of |terms|); verdicts within 1e-9 of the tolerance boundary are guard-banded',
+    'modelled, not verified: the expression parser and evaluator (oracles), numpy norm / float rounding (exact rationals in the model), '
+    "voluptuous' validation of the configuration, variable sampling, Python's range / sum / dict order, "
+    'post-evaluation validation (forbidden strings, required / permitted functions: property C09)',
+    'independent reference harness/summation_exprs.py (Gaussian rationals in Fractions)',
+]
+ASSUMPTIONS = ['limits are integers or +-infinity and |finite limit| <= cutoff (the implementation sorts the limits before replacing infinity)',
+               'infty_val / infty_val_fact are positive integers (the documented type); even_odd in {0, 1, 2}',
+               'value theorems assume the evaluator oracle succeeds on the index set; reindexing needs a commutative monoid of values',
+               'failable_evals = 0 in the main verdict theorem (the general consolidation rule is proved separately)']
+LEVEL_TEXT = ('Theorems for all integer limits, all cutoffs, every parity setting, every number of samples and every evaluator: the range '
+              'handed to range() enumerates exactly the integers between the two limits (either order, infinity replaced by the cutoff) of the '
+              'requested parity, in increasing order; the sum is symmetric in the limits, invariant under index shifts (even shifts under a '
+              'parity filter), reversal and renaming; the verdict is correct iff every sample is within tolerance; limit, dummy-variable, '
+              'blank-field, input-position and author-failure error classes. perform_summation and the limit checks are regenerated from '
+              'integralgrader.py on every run; the grader flow is tied by differential correspondence (trace level: evaluation points and sums).')
+LEVEL_NOTE = ('Exact rationals; evaluator, parser and tolerance norm are oracles; three full-strength error statements are refuted by the faithful '
+              'model (author failures outside the guarded evaluation, summand never evaluated on an empty range, instructor variable usable as '
+              'dummy variable) and kept as _refuted witnesses next to the _partial theorems; no axioms.')
+TECHNIQUE = 'Coq proof (induction on ranges/lists, lia) + source-to-Gallina translator + vm_compute trace correspondence + exact reference oracle'
+DESIGN_REF = 'DESIGN.md section 3, C19'
